@@ -245,14 +245,15 @@ def replay_finding(finding):
 
 
 LIN_INVARIANTS = ["Inv_C02_NormalEq", "Inv_C02_Solves", "Inv_C02_Unobserved", "Inv_C08_Keys"]
-LIN_PROPERTIES = ["Prop_C10_ReadOnly", "Prop_C07_FitIsFresh"]
+LIN_PROPERTIES = ["Prop_C10_ReadOnly", "Prop_C07_FitIsFresh", "Prop_C13_WarmStart"]
 
 
 def lin_consts(**over):
     c = dict(Labels={"a", "b", "c"}, InitArms=["a", "b"], D=2, Ctx={(0, 1), (1, 0), (1, 1), (2, -1)}, Rewards={-2, 1},
              Lambda=(1, 2), MaxBatch=1, MaxHist=3, MaxDepth=3,
              Ops={"fit", "partial_fit", "add_arm", "remove_arm", "predict_expectations", "predict"},
-             QuerySets={((1, 1),), ((0, 1), (2, -1)), ((1, 0), (1, 1), (2, -1))}, Scaled=False, Dev=set())
+             QuerySets={((1, 1),), ((0, 1), (2, -1)), ((1, 0), (1, 1), (2, -1))}, Scaled=False,
+             Feat={"a": [3, 4], "b": [3, 4], "c": [4, 3]}, Quantiles={(1, 2), (1, 1)}, Dev=set())
     c.update(over)
     return c
 
@@ -274,7 +275,7 @@ LIFE_PROPERTIES = ["Prop_C07_FitIsFresh", "Prop_C10_ReadOnly", "Prop_C17_RejectU
 
 
 def life_consts(**over):
-    c = dict(Labels={"a", "b", "c", "d"}, InitArms=["a", "b", "c"], NRows=10, Offsets={0, 3}, MaxChunk=3, MaxHist=6, MinFit=1,
+    c = dict(Labels={"a", "b", "c", "d"}, InitArms=["a", "b", "c"], NRows=10, Offsets={0, 3}, MaxChunk=3, MaxHist=6, MinFit=1, MinArms=2,
              MaxDepth=4, Ops={"fit", "partial_fit", "add_arm", "remove_arm", "predict", "predict_expectations"},
              RejectKinds=set(), QueryRows={1, 3}, Quantiles={(1, 2), (1, 1)}, Dev=set())
     c.update(over)
